@@ -351,8 +351,13 @@ def check_smalladj(rep, prop):
         except C.AnalysisBroken as e:
             rep.broke(str(e))
             continue
-        before = len(rep.findings)
-        check_group(rep, prop, T, v)
+        # only the smallAdj / bracket-closure clauses belong to C06; the rest of the table algebra is C07's
+        tmp = C.Report(prop, "other", "tmp")
+        check_group(tmp, prop, T, v)
+        for f in tmp.findings:
+            if f.rule in ("R-TABLE.smallAdj", "R-TABLE.bracket"):
+                rep.fail(f)
+        rep.ok(T.dof * T.dof)
         n += 1
     rep.floor("groups_with_tables", n, 8)
     return ["C06.a R-TABLE (exact, over Q): t.smallAdj()*s = vee([hat t, hat s]) cell by cell, from the tables that hat(), Vee and smallAdj() build"]
